@@ -25,6 +25,7 @@ from vf.jobs import gen_term, term
 
 PROP = "C10"
 NS = [1, 2, 3, 9, 10, 11, 12]
+NS_THOROUGH = list(range(1, 14)) + [20, 101]
 
 
 def gen_count(name: str, k: int, *args, **kwargs):
@@ -296,7 +297,10 @@ def check_fluent(tag, rp, build, out):
             return
 
 
-def cases():
+def cases(thorough: bool = False):
+    global NS
+    if thorough:
+        NS = NS_THOROUGH
     cs = []
     for tag, rp, build in fam_binding():
         cs.append(("graph", tag, rp, build))
@@ -324,7 +328,7 @@ def run_case(c):
 
 
 def run(ctx):
-    cs = cases()
+    cs = cases(not ctx.quick)
     out = []
     for c in cs:
         out += common.with_timeout(run_case, c, 60)
@@ -342,7 +346,7 @@ def run(ctx):
 
 def replay(ctx, data):
     out = []
-    for c in cases():
+    for c in cases(True):
         if c[2] == data:
             out += run_case(c)
     return [common.Violation(sig, msg, rp) for sig, msg, rp in out]
